@@ -267,7 +267,7 @@ fn check_case(model: &mut Model, c: &Case, mut rep: Option<&mut Report>) -> Opti
                     return Some(dis(Kind::SpecViolated, "C19/panic", Some(i), "write_io(0xFE) panicked".into(), "panic".into(), "no panic".into()));
                 }
                 let t1 = e.verif_frame_clocks();
-                let total = if t1 >= t0 { t1 - t0 } else { t1 + l - t0 };
+                let total = if t1 >= t0 { t1 - t0 } else { (t1 + l).saturating_sub(t0) };
                 if !(4..=12).contains(&total) {
                     return Some(dis(Kind::ModelMismatch, "C19/write-io-length", Some(i), "clocks taken by OUT to 0xFE".into(), format!("{}", total), "4..12 (1 + contention + 2 + 1)".into()));
                 }
